@@ -394,3 +394,6 @@ def run(chk, replay):
         # the working directory changes between selections on plotfiles opened under a relative name (PoolEnv.tla)
         from harness import poolenv
         poolenv.phase(chk, "select")
+        # hierarchies with refinement ratios 2 / 4 / mixed (Refine.tla): every box of every level reads its own FAB
+        from harness import refine
+        refine.phase(chk, "read")
